@@ -321,3 +321,42 @@ def alts(t):
             out.extend(alts(a))
         return out
     return [t]
+
+
+def capture_value(prog, body, name):
+    """value (a term in the defining body) of the variable `name` captured by closure `body`, followed through nested closures"""
+    seen = 0
+    while body is not None and seen < 6:
+        seen += 1
+        par_path = body.path.rsplit("::{closure", 1)[0]
+        parent = prog.get(par_path)
+        if parent is None:
+            return None
+        pres = Resolver(parent)
+        found = False
+        for i, j, s in parent.stmts():
+            r = s["r"] if s["k"] == "assign" else None
+            if r and r["k"] == "agg" and r["ak"] == "closure" and r["name"] == body.path:
+                names = [body.upvars.get(k) for k in range(len(r["ops"]))]
+                if name in names:
+                    v = pres.operand(r["ops"][names.index(name)])
+                    if v[0] == "upvar":
+                        body, name = parent, v[1]
+                        found = True
+                        break
+                    return v
+        if not found:
+            return None
+    return None
+
+
+def subst_upvars(prog, body, t):
+    """replace ('upvar', n) leaves of a closure-body term by the captured values"""
+    if not isinstance(t, tuple) or not t:
+        return t
+    if t[0] == "upvar":
+        v = capture_value(prog, body, t[1])
+        return v if v is not None else t
+    if isinstance(t[0], str):
+        return (t[0],) + tuple(subst_upvars(prog, body, x) if isinstance(x, tuple) else x for x in t[1:])
+    return tuple(subst_upvars(prog, body, x) if isinstance(x, tuple) else x for x in t)
